@@ -81,6 +81,16 @@ class Laws:
             nd = p.normalize_path(s, for_display=True)
             if p.normalize_path(nd, for_display=True) != nd:
                 self.bad("L1 normalize(for_display) not idempotent", s, nd)
+            # L6d: the display form differs from the plain form in the leaf's letter case only: it is equivalent to the
+            # input, normalising it gives the plain form, and display equality agrees with plain equality on (s, plain form)
+            self.n += 3
+            if p.normalize_path(nd) != n:
+                self.bad("L6d normalize(display form) is not the plain normal form", s, nd, n)
+            if not p.paths_match(nd, s):
+                self.bad("L6d display form not equivalent to the input", s, nd)
+            if p.paths_match(s, n) and not self.cs and n != self.sep and \
+                    p.normalize_path(n, for_display=True).lower() != nd.lower():
+                self.bad("L6d display forms of equivalent paths differ in more than letter case", s, nd, n)
             d, b = p.split(s)
             j = p.join(d, b)
             if not p.paths_match(j, s):
